@@ -163,8 +163,13 @@ def _sortkey_init_contracts():
         params=params, ensures=ens,
         defs={"cellv": lambda ip, col, r: _cellv(ip, col, r)},
         notes="closure variable col_sort_spec = [(col_i, +1)] with %d column(s)" % n)
+      # closure variables of make_sort_key: `col_sort_spec` pairs a column (object or id) with a
+      # sign; `table.get_column(c)` resolves a column id to the column - modelled as the identity
+      # on the same tokens, so the contract holds whether the key class stores objects or ids.
       c.closure_env = (lambda n: lambda args: {
-          "col_sort_spec": [(args["col%d" % i], 1) for i in range(n)]})(n)
+          "col_sort_spec": [(args["col%d" % i], 1) for i in range(n)],
+          "table": ObjVal("Table", {"get_column": Model("table.get_column(col) (resolves the column)",
+                                                        lambda ip, col: col)})})(n)
       out.append(c)
   return out
 
